@@ -20,6 +20,7 @@ Signals / sequences given as integer, float32, … arrays reach the model as the
 -/
 import Nitime.Model.ARBase
 import Nitime.Generated.FreqResponse
+import Nitime.Generated.LdFlow
 
 namespace Nitime.C10
 open Nitime.AR Nitime.AR.Scalar Nitime.Proto
@@ -78,6 +79,14 @@ def ldLoop (r : Nat → K) : Nat → LDSt K
   | 0 => ldInit r
   | 1 => ldInit r
   | p + 2 => ldStep r (p + 2) (ldLoop r (p + 1))
+
+/-- the source's loop has the shape `ldLoop` models — `p = 2; while p <= order: …; p += 1` with no `break` / `continue` /
+`return` / `raise` and no conditional inside: every pass is performed, whatever the reflection coefficient (facts GENERATED
+from `AR_est_LD` by `harness/translate_c10.py: gen_ld_flow`; `Props/C10Sparse.lean: ld_source_runs_every_pass`) -/
+def ldLoopRunsEveryPass : Bool :=
+  Nitime.Generated.LdFlow.ldLoopExits.isEmpty && Nitime.Generated.LdFlow.ldLoopGuards.isEmpty &&
+  Nitime.Generated.LdFlow.ldLoopHeaderIsPLeOrder && Nitime.Generated.LdFlow.ldLoopCountsByOne &&
+  Nitime.Generated.LdFlow.loops == 1
 
 /-- `AR_est_LD(x, order, rxx=r)`: `(w[1:], b)` after the final `b *= 1 - |w_k|²` -/
 def arLD (r : Nat → K) (order : Nat) : List K × K :=
